@@ -68,3 +68,13 @@ def explore_locksets(g, F, check, init=frozenset()):
         return st
 
     return explore(g, init, at=at, edge=edge)
+
+
+def lock_delta(F, node, lock=('self', '_lock')):
+    """Net change of the nesting level of `lock` caused by `node` (with-form,
+    explicit acquire()/release() and bound-method aliases alike)."""
+    d = 0
+    for delta, l in lock_ops(F, node):
+        if tuple(l) == tuple(lock):
+            d += delta
+    return d
